@@ -7,6 +7,7 @@ import (
 	"fmt"
 	"go/ast"
 	"go/types"
+	"io"
 	"os"
 	"path"
 	"path/filepath"
@@ -492,7 +493,7 @@ func firstLine(file string) (string, error) {
 
 	r := bufio.NewReader(f)
 	line, err := r.ReadString('\n')
-	if err != nil {
+	if err != nil && err != io.EOF {
 		return "", err
 	}
 	return line, nil
